@@ -19,14 +19,37 @@ def toRows (c : Nat) : Nat → Vec → List Vec
 
 /-- `function_t::size()` of the prototype built by `make(dims, summands)` -/
 def fnSize (id : String) (dims : Nat) : Nat :=
+  if id.contains '+' then max dims 2 else
   match id with
   | "rosenbrock" => max dims 2
   | "powell" => max 4 (dims - dims % 4)
   | _ => dims
 
+/-- elastic-net prototypes `<loss>+<ridge|lasso|elasticnet>[…]`: the kernel is chosen by the part before `+`; the data
+    and the two regularisation factors are appended by the harness: `N n inputs(N*n) bopt targets(N) alpha1 alpha2` -/
+def enetObj (id : String) (n : Nat) (extra : Toks) : Option Obj := do
+  let (rows, ts) ← pNat extra
+  let (cols, ts) ← pNat ts
+  let (data, ts) ← pList pFloat ts
+  let (b, ts) ← pFloat ts
+  let (t, ts) ← pList pFloat ts
+  let (a1, ts) ← pFloat ts
+  let (a2, ts) ← pFloat ts
+  guard (ts.isEmpty ∧ cols = n ∧ data.length = rows * cols ∧ t.length = rows)
+  let A := toRows cols rows data
+  let mk (kV kG : Float → Float → Float) : Obj := ⟨n, enetF kV a1 a2 A b t, enetG kG a1 a2 A b t⟩
+  match (id.splitOn "+").head! with
+  | "mse" => pure (mk enetMseV enetMseG)
+  | "mae" => pure (mk maeV maeG)
+  | "cauchy" => pure (mk enetCauchyV enetCauchyG)
+  | "hinge" => pure (mk enetHingeV enetHingeG)
+  | "logistic" => pure (mk enetLogisticV enetLogisticG)
+  | _ => none
+
 /-- the modelled prototypes; `extra` = the construction-time parameters appended by the harness -/
 def fnObj (id : String) (dims : Nat) (extra : Toks) : Option Obj :=
   let n := fnSize id dims
+  if id.contains '+' then enetObj id n extra else
   match id with
   | "sphere" => some ⟨n, sphereF, sphereG⟩
   | "axis-ellipsoid" => some ⟨n, axisF, axisG⟩
